@@ -127,6 +127,9 @@ type R4 = Registry!(DX, DS, DT, DQ);
 // ------------------------------------------------------------------ nondeterministic deserializer
 static mut CALLS: usize = 0;
 static mut NO_NONE_AT: [usize; 4] = [usize::MAX; 4];
+/// stream positions below this index always succeed (descend / yield a value): lets a harness
+/// spend its nondeterminism on the part of the stream it is about
+static mut FORCE_OK_BELOW: usize = 0;
 struct NDe;
 struct NSeq;
 impl<'de> SeqAccess<'de> for NSeq {
@@ -138,6 +141,9 @@ impl<'de> SeqAccess<'de> for NSeq {
             CALLS += 1;
             if choice == 0 && (c == NO_NONE_AT[0] || c == NO_NONE_AT[1] || c == NO_NONE_AT[2] || c == NO_NONE_AT[3]) {
                 choice = 1; // see the module comment: "ends here" is replaced by "fails here"
+            }
+            if c < FORCE_OK_BELOW {
+                choice = 2;
             }
         }
         if choice == 0 {
@@ -165,7 +171,7 @@ impl<'de> Deserializer<'de> for NDe {
         visitor.visit_seq(NSeq)
     }
     fn deserialize_u64<V: Visitor<'de>>(self, visitor: V) -> Result<V::Value, HErr> {
-        if kani::any() {
+        if unsafe { CALLS > FORCE_OK_BELOW } && kani::any() {
             Err(HErr)
         } else {
             visitor.visit_u64(kani::any())
@@ -314,6 +320,9 @@ by_column!(deser_arch_by_column_len2, 2);
 #[kani::stub(core::any::type_name, stub_type_name)]
 fn deser_arch_by_column_two_built_columns_then_failure() {
     unsafe { NO_NONE_AT = [1 + 3 * 1, 2 + 4 * 1, 3 + 5 * 1, usize::MAX] };
+    // identifier column and the first two component columns are read successfully (calls 0..=7);
+    // everything from the third component column on (call 8) is nondeterministic
+    unsafe { FORCE_OK_BELOW = 3 + 5 * 1 };
     let seed = DeserializeColumns::<R4> {
         lifetime: PhantomData,
         identifier: unsafe { Identifier::<R4>::new(vec![0b1110]) },
